@@ -170,7 +170,7 @@ func ValidateIssuer(issuer string, allowInsecure bool) error {
 }
 
 func ValidateIssuerPath(issuer *url.URL) error {
-	if issuer.Fragment != "" || len(issuer.Query()) > 0 {
+	if issuer.Fragment != "" || len(issuer.Query()) > 0 || issuer.RawQuery != "" {
 		return ErrInvalidIssuerPath
 	}
 	return nil
